@@ -70,7 +70,7 @@ def registry_replay(ctx):
 
 
 def run_family(ctx, module, build, cats, cfgfn, modes_quick, modes_thorough, devs, assumptions, rule, describe=None, cfgs=(None,),
-               cov_mode="seq2", registry=False, extra_real=()):
+               cov_mode="seq2", registry=False, extra_real=(), excl_file=None):
     if ctx.replay:
         return progcheck.replay_file(ctx, ctx.replay)
     thorough = ctx.tier == "thorough"
@@ -78,6 +78,7 @@ def run_family(ctx, module, build, cats, cfgfn, modes_quick, modes_thorough, dev
     nonvacuous(ctx, module, devs, cfgfn)
     total = 0
     real_items = list(extra_real)
+    excl_items = []
     for mode, k in (modes_thorough if thorough else modes_quick):
         scs, r = progcheck.tlc_scenarios(ctx, module, cfgfn(mode), "%s_%s" % (ctx.pid.lower(), mode), coverage=(mode == cov_mode))
         total += len(scs)
@@ -90,11 +91,22 @@ def run_family(ctx, module, build, cats, cfgfn, modes_quick, modes_thorough, dev
             for lo in range(0, len(items), 20000):
                 rep.check(items[lo:lo + 20000], cfg=c)
         real_items += progcheck.sample(items, 400 if thorough else 40, ctx.seed + 7)
+        if excl_file and mode in ("single", "seq2"):
+            excl_items += progcheck.sample(items, 3000 if thorough else 400, ctx.seed + 11)
     for lab, cov in ctx.coverage.items():
         zero = [a for a, n in cov.items() if n == 0 and not a.endswith("Finished")]
         if zero:
             raise vlib.ToolError("vacuous actions in %s: %s" % (lab, zero))
     rep.settle(describe=describe or _describe)
+    nexcl = 0
+    if excl_file:
+        # "in every analysed (non-excluded) file": with one of the using files excluded by name (it is not the first file of its
+        # package) exactly the diagnostics located in it disappear
+        rep2 = progcheck.Replay(ctx, cats)
+        c = {"scan_tests": "false", "exclude_paths": excl_file}
+        rep2.check([(p, {e for e in exp if not e[0].endswith("/" + excl_file)}, dict(m, excluded=excl_file)) for p, exp, m in excl_items], cfg=c)
+        rep2.settle(cfg=c, describe=lambda m: "exclude-paths=%s; %s" % (excl_file, (describe or _describe)(m)))
+        nexcl = rep2.run
     reg = registry_replay(ctx) if registry else None
     nreal = 0
     if not ctx.violations:
@@ -102,7 +114,8 @@ def run_family(ctx, module, build, cats, cfgfn, modes_quick, modes_thorough, dev
             nreal += progcheck.real_drivers(ctx, real_items, cats, rep, cfg=c)
     return ctx.finish("model_checking", {
         **({"index_histories_replayed": reg["histories"], "index_queries": reg["queries"]} if reg else {}),
-        "traces_validated_against_impl": rep.run + nreal,
+        "traces_validated_against_impl": rep.run + nreal + nexcl,
+        "replayed_with_one_file_excluded": nexcl,
         "samples": rep.samples,
         "evaluations": rep.run + nreal,
         "distinct_nontrivial": len(rep.nontrivial),
@@ -116,7 +129,7 @@ def run_family(ctx, module, build, cats, cfgfn, modes_quick, modes_thorough, dev
 
 def run(ctx):
     return run_family(
-        ctx, MODULE, gen_imm.build_imm, CATS, cfg,
+        ctx, MODULE, gen_imm.build_imm, CATS, cfg, excl_file="f1.go",
         modes_quick=[("single", 6000), ("seq2", 6000), ("spell", 2000)],
         modes_thorough=[("single", None), ("seq2", None), ("seq3", None), ("spell", None)],
         devs=[("LeakWalkState", "seq2", ("Exact", "NoCrash")), ("CtorAnyPkg", "single0", ("Exact",)), ("CtorByBareName", "single0", ("Exact",)), ("NoUnalias", "spell", ("Exact",)), ("CtorAnyType", "single0", ("Exact",)), ("GroupDocLeaks", "single0", ("Exact",)), ("RecvBySyntax", "spell", ("Exact",)), ("RecvNameMemo", "seq2", ("Exact",)), ("MutableByFieldName", "single0", ("Exact",)), ("OneTypePerCtor", "single0", ("Exact",))],
